@@ -79,6 +79,8 @@ def main():
             R.inconc("worker %s: %s" % (job["seed"], err))
             continue
         R.merge(res)
+    from vf import lazyimport
+    lazyimport.run_family(R, ['constants'], label="C03")
     R.assumptions = ["relation table = vf.ref.model (Python-level meaning of each assertion; assert_range half-open as the run-time check and test_assert_range define it)",
                      "solver self-test as in C02; SAT verdicts are certified by concrete re-evaluation"]
     concl, inc = R.counters.get("conclusive", 0), R.counters.get("solver_inconclusive", 0)
